@@ -186,7 +186,7 @@ func runCheck(repo, prop, tier string, seed, workers int, only string) int {
 	}
 	timeout := cfg.SolverTimeMs
 	if timeout == 0 {
-		timeout = 120000
+		timeout = 10000
 	}
 	pool, err := interp.NewPool(prog, workers, timeout, prog.InitPackagesFor(hnames))
 	if err != nil {
@@ -808,11 +808,11 @@ func nativeReplay(prog *interp.Program, repo, vd, prop string, cases []replayCas
 		writeJSON(casesPath, cs)
 		outPath := filepath.Join(scratch, pkgName+"_out.json")
 		rel, _ := filepath.Rel(repo, dir)
-		cmd := exec.Command("go", "test", "-tags", "verif", "-vet=off", "-count=1", "-run", "^TestVerifReplay$", "-overlay", ovPath, "./"+rel)
+		cmd := exec.Command("go", "test", "-tags", "verif", "-vet=off", "-count=1", "-timeout", "180s", "-run", "^TestVerifReplay$", "-overlay", ovPath, "./"+rel)
 		cmd.Dir = repo
 		cmd.Env = append(os.Environ(), "GOFLAGS=-mod=mod", "GOPROXY=off", "GOSUMDB=off", "GOTOOLCHAIN=local",
 			"VERIF_REPLAY_CASES="+casesPath, "VERIF_REPLAY_OUT="+outPath)
-		outb, err := runWithTimeout(cmd, 10*time.Minute)
+		outb, err := runWithTimeout(cmd, 5*time.Minute)
 		data, rerr := os.ReadFile(outPath)
 		if rerr != nil {
 			return nil, fmt.Errorf("go test produced no results (%v): %s", err, tail(string(outb), 2000))
